@@ -63,6 +63,33 @@ def _fail_all(ctx, names, why):
     ctx.inconclusive.append("smt: %s" % why[:800])
 
 
+def _validate_all(ctx, u, encs, vectors, problems):
+    """Translator validation of every encoding (in parallel): pinned inputs vs the native run."""
+    validations = {}
+    todo = []
+    for n, e in encs.items():
+        if e.error:
+            continue
+        if problems:
+            validations[n] = (False, 0, problems)
+        elif not vectors.get(n):
+            validations[n] = (False, 0, ["no validation vectors for encoding %s" % n])
+        else:
+            todo.append((n, e))
+
+    def one(ne):
+        n, e = ne
+        ok, cnt, mism, secs = engine.validate(e, vectors[n], os.path.join(u.dir, "validate"))
+        _log(ctx, "translator validation %-6s %d/%d vectors agree with the native run (%.1fs)%s" % (
+            n, cnt - len(mism), len(vectors[n]), secs, "" if ok else " MISMATCH: " + "; ".join(mism[:3])))
+        return n, (ok, cnt, mism)
+
+    with concurrent.futures.ThreadPoolExecutor(max_workers=_jobs()) as pool:
+        for n, v in pool.map(one, todo):
+            validations[n] = v
+    return validations
+
+
 # ---------------------------------------------------------------- C15: calendar arithmetic
 
 C15_NAMES = ["O1_to_parts_panic_free", "O2_to_parts_field_ranges", "O3_round_trip", "O4_to_parts_monotone",
@@ -90,17 +117,7 @@ def unit_calendar(ctx):
                 len(e.S.lines), e.S.n_divlemmas, len(e.ex.panics), e.S.logic())))
         obs = cal.obligations(encs, ctx.tier)
         vectors, problems = cal.validation_vectors(cal.parse_native(out))
-        validations = {}
-        for n, e in encs.items():
-            if e.error:
-                continue
-            if problems:
-                validations[n] = (False, 0, problems)
-                continue
-            ok, cnt, mism, secs = engine.validate(e, vectors[n], os.path.join(u.dir, "validate"))
-            validations[n] = (ok, cnt, mism)
-            _log(ctx, "translator validation %-5s %d/%d vectors agree with the native run (%.1fs)%s" % (
-                n, cnt - len(mism) if ok else cnt - len(mism), len(vectors[n]), secs, "" if ok else " MISMATCH: " + "; ".join(mism[:3])))
+        validations = _validate_all(ctx, u, encs, vectors, problems)
         driver.decide_all(ctx, obs, validations, u.dir, lambda ob: nat)
     except (engine.EngineError, Unsupported, Inconclusive) as e:
         _fail_all(ctx, [n for n in C15_NAMES if not any(o["obligation"] == n for o in ctx.smt)], "E2 calendar unit: %s" % e)
